@@ -482,13 +482,30 @@ func routed(r *lib.Rng, d *V) *V {
 }
 
 func (v *V) hasRoute() bool {
-	return v.any(func(x *V) bool { return x.R != "" }, func(*T) bool { return false })
+	return v.any(func(x *V) bool { return x.R != "" }, func(t *T) bool { return t.R != "" })
+}
+
+// unroutedT: the type description without the routes of the Rep types inside
+func unroutedT(t *T) *T {
+	if t == nil || !t.any(func(x *T) bool { return x.R != "" }) {
+		return t
+	}
+	c := *t
+	c.R = ""
+	if len(t.Ts) > 0 {
+		c.Ts = make([]*T, len(t.Ts))
+		for i, e := range t.Ts {
+			c.Ts[i] = unroutedT(e)
+		}
+	}
+	return &c
 }
 
 // unrouted returns the description without any route
 func unrouted(d *V) *V {
 	c := *d
 	c.R = ""
+	c.T = unroutedT(d.T)
 	if len(d.Vs) > 0 {
 		c.Vs = make([]*V, len(d.Vs))
 		for i, e := range d.Vs {
